@@ -716,6 +716,72 @@ theorem good_material_after_bad_is_published (b : Bool) (mk : M → Option S) (r
         exact ih st (fun r h => hbad r (List.mem_cons_of_mem _ h)) hne
   rw [this]; simp [step, hne, hm]
 
+/-! The same statement without the monitor: pick any two consecutive loader invocations of the trace. -/
+
+theorem noSpin_split (floor : Int) (prev : M) (armed : Bool) (pre rest : List (Ev M S))
+    (h : noSpin floor prev armed (pre ++ rest) = true) :
+    ∃ armed', noSpin floor (lastPubM prev pre) armed' rest = true := by
+  induction pre generalizing prev armed with
+  | nil => exact ⟨armed, h⟩
+  | cons e pre ih =>
+    cases e with
+    | load =>
+      simp only [List.cons_append, noSpin, Bool.and_eq_true] at h
+      exact ih prev true h.2
+    | out o =>
+      cases o with
+      | sleep d => simp only [List.cons_append, noSpin] at h; exact ih prev _ h
+      | publish m s => simp only [List.cons_append, noSpin] at h; exact ih m _ h
+
+theorem noSpin_gap (floor : Int) (prev : M) (mid post : List (Ev M S))
+    (hmid : ∀ e ∈ mid, e ≠ Ev.load)
+    (h : noSpin floor prev true (mid ++ Ev.load :: post) = true) :
+    (∃ d, Ev.out (Out.sleep d) ∈ mid ∧ floor ≤ d) ∨
+    (∃ m s, Ev.out (Out.publish m s) ∈ mid ∧ ∃ a b, mid = a ++ Ev.out (Out.publish m s) :: b ∧ m ≠ lastPubM prev a) := by
+  induction mid generalizing prev with
+  | nil => simp [noSpin] at h
+  | cons e mid ih =>
+    have hm : ∀ e ∈ mid, e ≠ Ev.load := fun x hx => hmid x (List.mem_cons_of_mem _ hx)
+    cases e with
+    | load => exact absurd rfl (hmid _ (by simp))
+    | out o =>
+      cases o with
+      | sleep d =>
+        simp only [List.cons_append, noSpin, Bool.true_and] at h
+        by_cases hd : d < floor
+        · simp only [hd, decide_true] at h
+          rcases ih prev hm h with ⟨d', hd', hf⟩ | ⟨m, s, hmem, a, b, e, hne⟩
+          · exact Or.inl ⟨d', List.mem_cons_of_mem _ hd', hf⟩
+          · exact Or.inr ⟨m, s, List.mem_cons_of_mem _ hmem, Ev.out (Out.sleep d) :: a, b, by simp [e], by simpa [lastPubM] using hne⟩
+        · exact Or.inl ⟨d, by simp, by omega⟩
+      | publish m s =>
+        simp only [List.cons_append, noSpin, Bool.true_and] at h
+        by_cases hp : m = prev
+        · simp only [hp, decide_true] at h
+          rcases ih prev hm h with ⟨d', hd', hf⟩ | ⟨m', s', hmem, a, b, e, hne⟩
+          · exact Or.inl ⟨d', List.mem_cons_of_mem _ hd', hf⟩
+          · exact Or.inr ⟨m', s', List.mem_cons_of_mem _ hmem, Ev.out (Out.publish m s) :: a, b, by simp [e],
+              by simpa [lastPubM, hp] using hne⟩
+        · exact Or.inr ⟨m, s, by simp, [], mid, rfl, by simpa [lastPubM] using hp⟩
+
+/-- **No spinning, spelled out.** Split the trace of the repaired loop at any two consecutive loader
+invocations (`mid` contains no invocation): in between there is a sleep of at least `max(refresh, 1s)`, or a
+publication whose material differs from the material published last before it (from the watcher's `last`
+if nothing was published before). -/
+theorem watch_no_spin_between (mk : M → Option S) (refresh : Int) (st : St M) (script : List (LoadResult M))
+    (pre mid post : List (Ev M S))
+    (h : trace true mk refresh st script = pre ++ Ev.load :: (mid ++ Ev.load :: post))
+    (hmid : ∀ e ∈ mid, e ≠ Ev.load) :
+    (∃ d, Ev.out (Out.sleep d) ∈ mid ∧ max refresh second ≤ d) ∨
+    (∃ m s a b, mid = a ++ Ev.out (Out.publish m s) :: b ∧ m ≠ lastPubM (lastPubM st.last pre) a) := by
+  have hm := watch_no_spin mk refresh st script
+  rw [h] at hm
+  obtain ⟨armed', h2⟩ := noSpin_split _ _ _ pre _ hm
+  simp only [noSpin, Bool.and_eq_true] at h2
+  rcases noSpin_gap _ _ mid post hmid h2.2 with h3 | ⟨m, s, _, a, b, e, hne⟩
+  · exact Or.inl h3
+  · exact Or.inr ⟨m, s, a, b, e, hne⟩
+
 end watch
 
 -- non-vacuity: good, unchanged, unusable, loader error, good again — one loader call per step, a sleep or a
